@@ -1,5 +1,5 @@
 import EvermintModel.Model.Eip712
-import EvermintModel.Properties.C19Inj
+import EvermintModel.Properties.C19Flat
 import Driver.Common
 /-! Driver for E-crypto.
 `keccak <hex>` → digest; `eip712 <chainId> <doc>` → `ok <digest>` | `error`, where `<doc>` is a prefix
@@ -59,9 +59,9 @@ def step (_ : Unit) (toks : List String) : Unit × String :=
   | ["keccak", h] => match Keccak.ofHex (if h == "-" then "" else h) with
     | some bs => ((), Keccak.toHex (Keccak.keccak256 bs))
     | none => ((), "bad-op")
-  | "docok" :: cid :: doc =>      -- the hypotheses of `C19_typed_injective`, evaluated on this document
+  | "docok" :: cid :: doc =>      -- the hypotheses of `C19_document_injective`, evaluated on this document
     match cid.toNat?, parseJ doc with
-    | some c, some (j, []) => ((), if docOK c j then "1" else "0")
+    | some c, some (j, []) => ((), if docOKFull c j then "1" else "0")
     | _, _ => ((), "bad-op")
   | "eip712" :: cid :: doc =>
     match cid.toNat?, parseJ doc with
